@@ -7,6 +7,6 @@ require (
 	seehuhn.de/go/postscript v0.0.0
 )
 
-require golang.org/x/exp v0.0.0-20240409090435-93d18d7e34b8 // indirect
+require golang.org/x/exp v0.0.0-20240409090435-93d18d7e34b8
 
 replace seehuhn.de/go/postscript => /repo
